@@ -26,7 +26,7 @@ int main(int argc, char** argv)
    if(argc < 3) { fprintf(stderr, "usage: %s entry replayfile\n", argv[0]); return 64; }
    FILE* f = fopen(argv[2], "r");
    if(!f) { perror("replay"); return 64; }
-   char line[128];
+   static char line[65536];
    while(fgets(line, sizeof line, f)) { if(line[0] == '#' || line[0] == '\n') continue; if(vp_replay_n < 65536) vp_replay_vals[vp_replay_n++] = strtoull(line, nullptr, 16); }
    fclose(f);
    void (*fn)(void) = (void (*)(void))dlsym(RTLD_DEFAULT, argv[1]);
